@@ -194,7 +194,7 @@ func (r *Reader) ReadPacket() (Packet, error) {
 		return nil, err
 	}
 	fh := &FixHeader{PacketType: first >> 4, Flags: first & 15} //设置FixHeader
-	length, err := EncodeRemainLength(r.bufr)
+	length, err := EncodeRemainLength(headerByteReader{r.bufr})
 	if err != nil {
 		return nil, err
 	}
@@ -207,6 +207,20 @@ func (r *Reader) ReadPacket() (Packet, error) {
 		r.version = p.Version
 	}
 	return packet, err
+}
+
+// headerByteReader reads the remaining length of a fixed header: a stream that ends inside the fixed
+// header is an error, not a remaining length of zero.
+type headerByteReader struct {
+	r io.ByteReader
+}
+
+func (h headerByteReader) ReadByte() (byte, error) {
+	b, err := h.r.ReadByte()
+	if err == io.EOF {
+		err = io.ErrUnexpectedEOF
+	}
+	return b, err
 }
 
 // WritePacket writes the packet bytes to the Writer.
